@@ -51,6 +51,22 @@ def s6(a: int, b: int = 2, /, c: int = 3, *rest: int, d: int = 4):
     return record(a=a, b=b, c=c, rest=rest, d=d)
 
 
+def s7_dec(a: int, b: int = 2, *, c: int = Param(10), d: List[int] = Param(default_factory=list), e: int = Param(alias_from=['e2'], default=5)):
+    return record(a=a, b=b, c=c, d=d, e=e)
+
+
+def s7_twin(a, b=2, *, c=10, d=None, e=5):
+    return record(a=a, b=b, c=c, d=[] if d is None else d, e=e)
+
+
+def s8_dec(a: int, *, c: int = Param()):
+    return record(a=a, c=c)
+
+
+def s8_twin(a, *, c):
+    return record(a=a, c=c)
+
+
 SIGS = {
     # name: (decorated, twin, positional parameter names in order, max positionals (None = *args), keyword spellings
     #        {spelling: parameter}, accepts **kw, positional-only names)
@@ -60,6 +76,8 @@ SIGS = {
     's4': (utype.parse(s4), s4, ['a', '_skip', 'b'], 3, {'a': 'a', 'b': 'b'}, False, []),
     's5': (utype.parse(s5_dec), s5_twin, ['a', 'b'], 2, {'a': 'a', 'a2': 'a', 'a3': 'a', 'b': 'b', 'bb': 'b'}, False, []),
     's6': (utype.parse(s6), s6, ['a', 'b', 'c'], None, {'c': 'c', 'd': 'd'}, False, ['a', 'b']),
+    's7': (utype.parse(s7_dec), s7_twin, ['a', 'b'], 2, {'b': 'b', 'c': 'c', 'e2': 'e'}, False, []),
+    's8': (utype.parse(s8_dec), s8_twin, ['a'], 1, {'a': 'a', 'c': 'c'}, False, []),
 }
 
 
@@ -108,7 +126,19 @@ def _bind(V, sig):
         twin(*targs, **tkwargs)
     except TypeError:
         V.cover('python-refuses')
-        return                  # Python itself would not bind this call
+        # Python itself would not bind this call: utype may be laxer (ignore extras), but if it runs the body every
+        # annotated parameter must still hold a conforming value
+        del REC[:]
+        try:
+            dec(*args, **kwargs)
+        except Exception:  # noqa
+            return
+        for got in REC:
+            for k, v in got.items():
+                if k in ('a', 'b', 'c', 'd', 'e', 'k') and k != '_skip' and not (sig == 's5' and k == 'c') and not (sig == 's7' and k == 'd'):
+                    V.check(type(v) is int, 'bind:body-ran-with-unconverted-parameter:' + k,
+                            lambda: '%s(*%r, **%r): body saw %r' % (sig, args, kwargs, got))
+        return
     want = REC.pop()
     del REC[:]
     try:
@@ -210,10 +240,14 @@ def methods(V):
 
 
 # ---------------------------------------------------------------- generators, coroutines
+TWIN_SENT = []
+
+
 def gen_body(n: int, bad_at: int = -1):
     total = 0
     for i in range(n):
         got = yield ('x' if i == bad_at else str(i * 10))
+        TWIN_SENT.append(got)
         if got is not None:
             total += got
     return total
@@ -225,8 +259,8 @@ def _mk_gen(eager):
         total = 0
         for i in range(n):
             got = yield ('x' if i == bad_at else str(i * 10))
+            record(sent=got)
             if got is not None:
-                record(sent=got)
                 total += got
         return total
     return g
@@ -286,7 +320,10 @@ def generator(V):
     del REC[:]
     g = GEN[eager](n if n_arg == 'int' else str(n), bad_at)
     got = drive_sync(V, g, steps, sends)
+    body_received = [r['sent'] for r in REC]
+    del TWIN_SENT[:]
     twin = drive_sync(V, gen_body(n, bad_at), steps, tsends)
+    twin_received = list(TWIN_SENT)
     # expected stream: twin's events converted; a bad yield or an invalid sent value ends the stream with ParseError
     want = []
     for idx, ev in enumerate(twin):
@@ -307,6 +344,9 @@ def generator(V):
     det = lambda: 'generator(eager=%r) n=%r bad_yield_at=%r sends=%r: decorated stream %r ; twin stream %r ; expected %r' % (
         eager, n, bad_at, sends, got, twin, want)
     V.check(got == want and all(type(a[1]) is type(b[1]) for a, b in zip(got, want)), 'generator:stream', det)
+    if got and got[-1][0] != 'raise':
+        V.check(body_received == twin_received and all(type(a) is type(b) for a, b in zip(body_received, twin_received)),
+                'generator:sent-values', lambda: det() + ' ; body received %r, twin received %r' % (body_received, twin_received))
     V.cover('raise' if got and got[-1][0] == 'raise' else 'return' if got and got[-1][0] == 'return' else 'open')
 
 
